@@ -37,7 +37,7 @@ Ltac ucase := unfold upd in *; repeat match goal with
 (* ---------------------------------------------------------------- the baton *)
 Definition Baton (s : state) : Prop :=
   (forall g h, active (pc s g) = true -> active (pc s h) = true -> g = h) /\
-  (exists g, active (pc s g) = true).
+  (exists g, active (pc s g) = true \/ pc s g = Panicked).
 
 Lemma after_recv_active : forall c m, active (after_recv c m) = true.
 Proof. intros. unfold after_recv. destruct m; auto. destruct (c =? 0); auto. Qed.
@@ -45,7 +45,6 @@ Proof. intros. unfold after_recv. destruct m; auto. destruct (c =? 0); auto. Qed
 Lemma baton_step : forall cf s a s', Baton s -> step cf s a = Some s' -> Baton s'.
 Proof.
   intros cf s [g l] s' [A [a0 B]] H. step_cases H Pg; brk H.
-  all: pose proof (A a0 g B) as Ea; rewrite Pg in Ea; cbn [active waiting tail negb andb] in Ea.
   all: split;
     [ intros x y; pose proof (A x y) as Axy; pose proof (A x g) as Axg; pose proof (A y g) as Ayg;
       pose proof (A g x) as Agx; pose proof (A g y) as Agy;
@@ -57,11 +56,88 @@ Proof.
       intros; try congruence; try (exfalso; lia); auto;
       try (specialize (Axg eq_refl); congruence); try (specialize (Ayg eq_refl); congruence)
     | ].
-  all: try solve [exists g; simp; rewrite upd_eq; try (destruct (g =? 0)); reflexivity].
-  all: try solve [exists g; simp; unfold upd; rewrite ?Nat.eqb_refl;
-                  repeat match goal with |- context [?a =? ?b] => destruct (Nat.eqb_spec a b) end; try lia; reflexivity].
-  all: try solve [exists a0; simp; rewrite upd_neq; [exact B | intro; subst; rewrite Pg in B; discriminate B]].
-  all: try solve [exists a0; rewrite Pg in B; exact B].
-  all: try solve [match goal with |- context [upd (upd _ g _) ?r _] =>
-                  exists r; simp; rewrite upd_eq; try (destruct k); try apply after_recv_active; reflexivity end].
+  (* existence *)
+  all: try solve [exists g; right; simp; apply upd_eq].
+  all: try solve [exists g; left; simp; ucase; try (exfalso; lia); rewrite ?Pg; try destruct (rel_after_send _);
+                  try reflexivity; try apply after_recv_active].
+  all: try solve [match goal with Hp : pc _ ?r = _ |- _ =>
+                  exists r; left; simp; rewrite upd_eq; try (destruct k); try apply after_recv_active; reflexivity end].
+  all: try solve [exists a0; simp; ucase; try exact B; destruct B as [B|B]; rewrite Pg in B; discriminate B].
+Qed.
+
+Lemma baton_init : Baton init.
+Proof.
+  split.
+  - intros g h. unfold init; simpl. unfold upd.
+    destruct (Nat.eqb_spec g 0), (Nat.eqb_spec h 0); simpl; congruence.
+  - exists 0. left. reflexivity.
+Qed.
+
+Lemma baton_reachable : forall cf s, reachable cf s -> Baton s.
+Proof.
+  intros cf. apply reachable_ind'. apply baton_init.
+  intros s a s' _ B H. eapply baton_step; eauto.
+Qed.
+
+(* ---- no goroutine is ever at E8 (ReleaseBytes after the hand-off) unless the old order is configured *)
+Definition at_E8 (p : pcT) : bool := match p with E8 _ => true | _ => false end.
+
+Lemma noE8_step : forall cf s a s', rel_after_send cf = false ->
+  (forall h, at_E8 (pc s h) = false) -> step cf s a = Some s' -> forall h, at_E8 (pc s' h) = false.
+Proof.
+  intros cf s [g l] s' RF N H h. step_cases H Pg; brk H.
+  all: pose proof (N h) as Nh; pose proof (N g) as Ng; rewrite ?Pg in *; simp; ucase; rewrite ?Pg in *;
+       repeat match goal with H : pc _ _ = _ |- _ => rewrite H in * end;
+       try rewrite RF in *; try (destruct k); try (destruct m); try (destruct (c =? 0));
+       cbn [at_E8 after_recv] in *; try congruence; auto.
+  all: try (unfold after_recv; destruct (c =? 0); reflexivity).
+  all: try (unfold after_recv; destruct (h =? 0); reflexivity).
+Qed.
+
+Lemma noE8_reachable : forall cf s, rel_after_send cf = false -> reachable cf s ->
+  forall h, at_E8 (pc s h) = false.
+Proof.
+  intros cf s RF R. revert s R. apply (reachable_ind' cf (fun s => forall h, at_E8 (pc s h) = false)).
+  - intros h. unfold init; simpl. unfold upd. destruct (h =? 0); reflexivity.
+  - intros s a s' _ N H. eapply noE8_step; eauto.
+Qed.
+
+Lemma accessing_active : forall p, accessing p = true -> active p = true \/ at_E8 p = true.
+Proof. destruct p; simpl; auto; discriminate. Qed.
+
+(* BATON: in every reachable state at most one goroutine is active, and (unless the process died)
+   one is; every goroutine whose next action touches shared runtime state is that one. *)
+Theorem baton_unique : forall cf s, rel_after_send cf = false -> reachable cf s ->
+  (forall g h, active (pc s g) = true -> active (pc s h) = true -> g = h) /\
+  (exists g, active (pc s g) = true \/ pc s g = Panicked) /\
+  (forall g h, accessing (pc s g) = true -> accessing (pc s h) = true -> g = h) /\
+  (forall g, accessing (pc s g) = true -> active (pc s g) = true).
+Proof.
+  intros cf s RF R. destruct (baton_reachable _ _ R) as [A B].
+  pose proof (noE8_reachable _ _ RF R) as N.
+  assert (AA : forall g, accessing (pc s g) = true -> active (pc s g) = true).
+  { intros g Hg. destruct (accessing_active _ Hg) as [|E]; auto. rewrite N in E. discriminate. }
+  repeat split; auto.
+Qed.
+
+(* ---- Dead => the goroutine is in the final section of end (after the status write) *)
+Definition in_end (p : pcT) : bool :=
+  match p with
+  | E5 _ _ | E6 _ _ | E6r _ _ | E7 _ _ | E8 _ | E9 _ | E10 | Done
+  | X1 _ _ _ | X2 _ _ _ | X3 _ _ _ | XY1 _ _ | Panicked => true
+  | _ => false
+  end.
+
+Definition DeadEnd (s : state) : Prop :=
+  (forall h, status (th s h) = Dead -> in_end (pc s h) = true).
+
+Lemma deadend_step : forall cf s a s', DeadEnd s -> step cf s a = Some s' -> DeadEnd s'.
+Proof.
+  intros cf s [g l] s' D H h. step_cases H Pg; brk H.
+  all: pose proof (D h) as Dh; pose proof (D g) as Dg; rewrite ?Pg in *; simp; ucase; rewrite ?Pg in *;
+       simp; cbn [in_end] in *; try congruence; auto.
+  all: try (intros; try destruct (rel_after_send cf); reflexivity).
+  all: repeat match goal with H : pc _ _ = _ |- _ => rewrite H in * end; cbn [in_end] in *;
+       intros Hd; try (specialize (Dh Hd)); try congruence; auto.
+  all: try (lapply (D (n s)); [|assumption]).
 Qed.
